@@ -187,6 +187,21 @@ func c19CLI(e *Env) {
 		judge(fmt.Sprintf("skip:%s", strings.Join(skipped, "+")), fmt.Sprintf("`schema apply --env local --auto-approve` with diff.skip %v", skipped), db, o, absent)
 		os.Remove(filepath.Join(dir, db))
 	}
+	// the skip policy given once at project level: an environment without a diff block, and one whose own diff
+	// block says nothing about skipping, inherit it
+	for vi, envDiff := range []string{"", "  diff {\n  }\n", "  diff {\n    concurrent_index {\n      create = true\n    }\n  }\n"} {
+		db := fresh(fmt.Sprintf("skipproj%d.sqlite", vi))
+		skipped := []string{"drop_table", "add_column", "drop_foreign_key"}
+		cfg := "diff {\n  skip {\n    drop_table = true\n    add_column = true\n    drop_foreign_key = true\n  }\n}\nenv \"local\" {\n  url = \"sqlite://" + db + "\"\n  src = \"file://schema.sql\"\n  dev = \"sqlite://dev?mode=memory\"\n" + envDiff + "}\n"
+		os.WriteFile(filepath.Join(dir, "atlas.hcl"), []byte(cfg), 0o644)
+		o := runAtlas(e, dir, nil, "schema", "apply", "--env", "local", "--auto-approve")
+		if o.Code != 0 && strings.Contains(o.Stderr+o.Stdout, "concurrent_index") {
+			os.Remove(filepath.Join(dir, db))
+			continue // the block is not known to this build
+		}
+		judge(fmt.Sprintf("skip-project:%d", vi), fmt.Sprintf("`schema apply --env local --auto-approve` with a project-level diff.skip %v and env diff block %q", skipped, envDiff), db, o, skipped)
+		os.Remove(filepath.Join(dir, db))
+	}
 	os.Remove(filepath.Join(dir, "atlas.hcl"))
 	// (2) --exclude
 	type ex struct {
